@@ -233,6 +233,19 @@ def build_generated_cases(cs, rng, n, hist):
             raw = rng.choice(["", " ", "  ", "\t", "\u00a0", "\u3000"]) + raw + rng.choice(["", " ", "\n", "\u00a0 "])
         cs.add("xmld", {"text": raw}, ["xmld", K.sx_s(raw)])
         if rng.random() < 0.4:
+            nm_raw = name if rng.random() < 0.5 else rng.choice(["", " "] + K.EXOTIC_WS) + name + rng.choice([" "] + K.EXOTIC_WS)
+            cs.add("xmln", {"text": nm_raw}, ["xmln", K.sx_s(nm_raw)])
+        if rng.random() < 0.5:
+            # a small MediaWiki-like text: lines may hold any code point of the text class except LF
+            ls = []
+            for _ in range(rng.randint(1, 5)):
+                ln = rng.choice(["", "* ", "** ", "'''"]) + K.g_name(rng) + " <nowiki>[" + (K.g_desc(rng) or "d").replace("\n", " ") + "]</nowiki>"
+                if rng.random() < 0.6:
+                    ln = K.exoticise(rng, ln)
+                ls.append(ln)
+            text = "\n".join(ls) + rng.choice(["", "\n"])
+            cs.add("lines", {"text": text}, ["lines", K.sx_s(text)])
+        if rng.random() < 0.4:
             incl = rng.random() < 0.5
             cs.add("tsve", {"strip": strip, "incl": incl, "name": name, "attrs": attrs, "desc": desc},
                    ["tsve", strip, incl, K.sx_s(name), K.sx_attrs(attrs), K.sx_desc(desc)])
@@ -348,6 +361,24 @@ def check_case(kind, p, m, res, stats):
             if mo[0] != "ok" or mo[1] != short or not same_entry(mo[2], at) or mo[3] != (desc or None):
                 res.report("tsv-row-decodes-to-entry", {"schema": p.get("schema"), "merged": p.get("merged"), "row": p["row"]},
                            f"decoded={mo} entry={ex}")
+        return False
+    if kind == "lines":
+        im = K.canon_lines(K.impl_open_file_lines(p["text"]))
+        want = K.canon_lines(K.lf_lines(p["text"]))
+        if im != want:
+            # property-level: the reader must see the LF-separated lines of the text and nothing else
+            res.report("lines-split-only-at-LF", {"text": p["text"], "codepoints": [hex(ord(c)) for c in p["text"] if ord(c) > 126 or ord(c) < 32]},
+                       f"reader sees {len(im)} lines, the text has {len(want)} LF-separated lines")
+            return True
+        mo = K.canon_lines([K.un_s(x) for x in m])
+        if im != mo:
+            return corr(f"lines impl={im} model={mo}")
+        return False
+    if kind == "xmln":
+        im = K.impl_xml_name(p["text"])
+        mo = K.un_s(m)
+        if im != mo:
+            return corr(f"xml name impl={im!r} model={mo!r} (VERIF_C05_FIXED_F5={K.FIXED5})")
         return False
     if kind == "xmld":
         im = K.impl_xml_desc(p["text"])
@@ -521,6 +552,7 @@ def run_codec(tier, rng, res, hist):
 # ---------------------------------------------------------------- run
 
 # the repaired findings: only recognised with VERIF_C05_FIXED=0 (record of the code before fix-F1..F4)
+FIXED5 = K.FIXED5   # VERIF_C05_FIXED_F5, default 1: finding C05-F5 (names with an outer non-ASCII blank) repaired by fix commit 4b4f5c6
 LEGACY_FINDINGS = {
     "C05-F1": "description with outer white space kept by the XML reader but stripped by the MediaWiki/TSV readers",
     "C05-F2": "TSV written with QUOTE_NONE but read with default quoting: a description starting with a double quote is altered",
